@@ -405,6 +405,81 @@ def independent_translation(cds_nt, codon_start, flavor):
     return "".join(aa)
 
 
+
+_SKIP_QUAL_KEYS = ("codon_start", "translation")  # checked on their own (frames / independent translation)
+
+
+def _qnorm(d):
+    """qualifier dict -> {key: sorted values as text without white space} (GenBank wraps long values; the reader joins
+    the pieces with blanks)"""
+    out = {}
+    for k, vs in (d or {}).items():
+        if k in _SKIP_QUAL_KEYS:
+            continue
+        out[str(k)] = sorted({"".join(str(v).split()) for v in vs})
+    return out
+
+
+def _with(q, key, val):
+    if val:
+        q.setdefault(key, set()).add(val)
+
+
+def _own(spec_quals):
+    return {k: set(vs) for k, vs in (spec_quals or {}).items()}
+
+
+def expected_record_qualifiers(kind, obj, symbol=None, locus=None, container=None):
+    """What the documentation of the writer (io/genbank/writer.py doc strings, export_qualifiers) says a record carries:
+    the interval's own qualifiers, its identifiers under the BioCantor keys, /gene (or /misc_feature) and /locus_tag of
+    the gene or feature collection it belongs to - and nothing else (in particular nothing of a sibling)."""
+    q = _own(obj.get("qualifiers"))
+    if kind == "gene":
+        _with(q, "gene_id", obj.get("gene_id"))
+        _with(q, "gene_name", obj.get("gene_symbol"))
+        _with(q, "gene_biotype", obj.get("gene_type") or "unspecified")
+        _with(q, "locus_tag", obj.get("locus_tag"))
+        if symbol:
+            q["gene"] = {symbol}
+        if locus:
+            q["locus_tag"] = {locus}
+    elif kind in ("transcript", "cds"):
+        _with(q, "transcript_id", obj.get("transcript_id"))
+        _with(q, "transcript_name", obj.get("transcript_symbol"))
+        _with(q, "transcript_biotype", obj.get("transcript_type") or "unspecified")
+        _with(q, "protein_id", obj.get("protein_id"))
+        if symbol is not None:
+            q["gene"] = {symbol}
+        if locus is not None:
+            q["locus_tag"] = {locus}
+        if kind == "transcript":
+            q.pop("protein_id", None)
+    elif kind == "feature_collection":
+        _with(q, "feature_collection_id", obj.get("feature_collection_id"))
+        _with(q, "feature_collection_name", obj.get("feature_collection_name"))
+        _with(q, "locus_tag", obj.get("locus_tag"))
+        _with(q, "feature_collection_type", obj.get("feature_collection_type"))
+        types = set()
+        for f in obj["feature_intervals"]:
+            types |= set(f.get("feature_types") or [])
+        if types:
+            q["feature_type"] = types
+        if symbol:
+            q["misc_feature"] = {symbol}
+        if locus:
+            q["locus_tag"] = {locus}
+    elif kind == "feature":
+        _with(q, "feature_name", obj.get("feature_name"))
+        _with(q, "feature_id", obj.get("feature_id"))
+        if obj.get("feature_types"):
+            q["feature_type"] = set(obj["feature_types"])
+        if symbol:
+            q["gene"] = {symbol}
+        if container.get("locus_tag"):
+            q["locus_tag"] = {container["locus_tag"]}
+    return _qnorm(q)
+
+
 def check_biopython(case, imp):
     fs = []
 
@@ -451,6 +526,14 @@ def check_biopython(case, imp):
                 bad(f"{label}_identifiers", f"wanted {quals_need}")
             return None
 
+        def same_quals(f, want, label):
+            if f is None:
+                return
+            have = _qnorm(f["quals"])
+            if have != want:
+                diff = {k: (have.get(k), want.get(k)) for k in sorted(set(have) | set(want)) if have.get(k) != want.get(k)}
+                bad(f"{label}_qualifiers", f"(file, source) per key: {diff}")
+
         # order of children as the collection iterates them does not matter here: records are matched by content
         for g in spec["genes"]:
             strand = _sv(g["transcripts"][0]["strand"])
@@ -458,7 +541,8 @@ def check_biopython(case, imp):
             hi = max(t["exon_ends"][-1] for t in g["transcripts"])
             symbol = g.get("gene_symbol") or g.get("gene_id")
             locus = g.get("locus_tag") or symbol
-            take("gene", [(lo, hi)], strand, {"gene": symbol, "locus_tag": locus, "gene_id": g.get("gene_id")}, "gene")
+            same_quals(take("gene", [(lo, hi)], strand, {"gene": symbol, "locus_tag": locus, "gene_id": g.get("gene_id")}, "gene"),
+                       expected_record_qualifiers("gene", g, symbol, locus), "gene")
             for t in g["transcripts"]:
                 ftype = _tx_feature_type(t)
                 exons = list(zip(t["exon_starts"], t["exon_ends"]))
@@ -466,11 +550,13 @@ def check_biopython(case, imp):
                 coding_feature = ftype == "mRNA" and t.get("cds_starts")
                 if not (coding_feature and case["flavor"] == "PROKARYOTIC"):
                     f = take(ftype, exons, strand, need, "transcript")
+                    same_quals(f, expected_record_qualifiers("transcript", t, symbol, locus), "transcript")
                     if f is not None and "protein_id" in f["quals"]:
                         bad("protein_id_on_transcript_record")
                 if coding_feature:
                     cds = list(zip(t["cds_starts"], t["cds_ends"]))
                     f = take("CDS", cds, strand, dict(need, protein_id=t.get("protein_id")), "cds")
+                    same_quals(f, expected_record_qualifiers("cds", t, symbol, locus), "cds")
                     if f is not None:
                         f0 = {"ZERO": 0, "ONE": 1, "TWO": 2}[t["cds_frames"][0 if t["strand"] == "PLUS" else -1]]
                         cs = f["quals"].get("codon_start")
@@ -506,10 +592,12 @@ def check_biopython(case, imp):
             lo = min(f["interval_starts"][0] for f in c["feature_intervals"])
             hi = max(f["interval_ends"][-1] for f in c["feature_intervals"])
             symbol = c.get("feature_collection_name") or c.get("feature_collection_id")
-            take("misc_feature", [(lo, hi)], strand, {"misc_feature": symbol}, "feature_collection")
+            same_quals(take("misc_feature", [(lo, hi)], strand, {"misc_feature": symbol}, "feature_collection"),
+                       expected_record_qualifiers("feature_collection", c, symbol, c.get("locus_tag") or symbol), "feature_collection")
             for f_ in c["feature_intervals"]:
-                take("feat_interval", list(zip(f_["interval_starts"], f_["interval_ends"])), strand,
-                     {"feature_name": f_.get("feature_name"), "feature_id": f_.get("feature_id")}, "feature")
+                same_quals(take("feat_interval", list(zip(f_["interval_starts"], f_["interval_ends"])), strand,
+                                {"feature_name": f_.get("feature_name"), "feature_id": f_.get("feature_id")}, "feature"),
+                           expected_record_qualifiers("feature", f_, symbol, None, container=c), "feature")
         extra = [f["type"] for i, f in enumerate(feats) if i not in used]
         if extra:
             bad("extra_records", extra[:6])
